@@ -12,6 +12,7 @@ import (
 	"fmt"
 	"math/rand"
 	"os"
+	"os/exec"
 	"path"
 	"path/filepath"
 	"regexp"
@@ -20,6 +21,7 @@ import (
 	"strconv"
 	"strings"
 	"sync"
+	"time"
 
 	"github.com/martian-lang/martian/martian/core"
 	"github.com/martian-lang/martian/martian/syntax"
@@ -63,12 +65,16 @@ type Spec struct {
 	Faults  map[string]string `json:"faults"` // job key -> fault kind
 	Keep    string            `json:"keep"`   // directory to keep the pipestance in (replay)
 	MaxIter int               `json:"maxiter"`
+	// Restart: after the pipestance has failed, remove the faults, start a new
+	// runtime on the same directory (as a restarted mrp does) and run again.
+	Restart bool `json:"restart"`
 }
 
 // Result is what a run reports besides its trace.
 type Result struct {
 	Name     string                 `json:"name"`
 	State    string                 `json:"state"`
+	States   []string               `json:"states"` // final state of every incarnation
 	Iter     int                    `json:"iter"`
 	Execs    map[string]int         `json:"execs"`
 	Ended    map[string]string      `json:"ended"`
@@ -111,6 +117,7 @@ type Driver struct {
 	res    *Result
 	rng    *rand.Rand
 	script []string
+	scriptPos int
 }
 
 type devNull struct{}
@@ -210,6 +217,23 @@ func (d *Driver) exec(vj *core.VerifJob) {
 
 func writeFile(p string, b []byte) error { return os.WriteFile(p, b, 0644) }
 
+var deadPidOnce sync.Once
+var deadPidVal int
+
+// deadPid returns the pid of a process that has exited.
+func deadPid() int {
+	deadPidOnce.Do(func() {
+		cmd := exec.Command("/bin/true")
+		if err := cmd.Start(); err == nil {
+			deadPidVal = cmd.Process.Pid
+			cmd.Wait()
+		} else {
+			deadPidVal = 4194000
+		}
+	})
+	return deadPidVal
+}
+
 func (d *Driver) journal(j *job, name string) {
 	pre := ""
 	switch j.vj.ShellName {
@@ -273,6 +297,15 @@ func (d *Driver) begin(j *job) {
 		d.res.ArgsBad = append(d.res.ArgsBad, j.key+": "+detail)
 	}
 	d.tr.Emit("StageBegin", "job", j.key, "known", j.inv != nil, "argsOk", argsOk, "attempt", j.attempt)
+	// record a pid in _jobinfo as the job monitor does (a pid that is not alive,
+	// so that a restarted mrp recognises the job as orphaned)
+	if ji, err := readJSON(path.Join(j.vj.MetadataPath, "_jobinfo")); err == nil {
+		if m, ok := ji.(map[string]interface{}); ok {
+			m["pid"] = deadPid()
+			b, _ := json.Marshal(m)
+			writeFile(path.Join(j.vj.MetadataPath, "_jobinfo"), b)
+		}
+	}
 	writeFile(path.Join(j.vj.MetadataPath, "_log"), []byte("log\n"))
 	d.journal(j, "log")
 }
@@ -368,6 +401,9 @@ func (d *Driver) envActions() []string {
 	defer d.mu.Unlock()
 	var acts []string
 	for i, j := range d.jobs {
+		if j.ended {
+			continue // finished, or died with a previous mrp
+		}
 		if !j.begun {
 			acts = append(acts, "B:"+strconv.Itoa(i))
 		} else if !j.ended {
@@ -461,6 +497,52 @@ func Run(spec *Spec, workdir string) (res *Result) {
 	ps.LoadMetadata(ctx)
 	d.rng = rand.New(rand.NewSource(spec.Sched.Seed))
 	d.loop(ctx)
+	res.States = append(res.States, res.State)
+	if spec.Restart && res.State == string(core.Failed) {
+		// mrp reports the failure, unlocks and exits; its local jobs die with it
+		fq, _, _, log, _, _ := d.ps.GetFatalError()
+		res.FatalFq, res.FatalLog = fq, log
+		d.tr.Emit("RunEnd", "state", res.State, "stuck", res.Stuck, "fatal", fq)
+		d.ps.Unlock()
+		d.mu.Lock()
+		for _, j := range d.jobs {
+			if !j.ended {
+				j.ended = true
+				if j.begun {
+					d.tr.Emit("StageKilled", "job", j.key)
+				}
+			}
+		}
+		d.mu.Unlock()
+		time.Sleep(20 * time.Millisecond) // let asynchronous cleanup goroutines of the old runtime end
+		spec.Faults = nil
+		d.tr.Emit("Restart")
+		d.script = append(d.script, "RESTART")
+		rt2, err := core.VerifNewRuntime(&opts, 4, 4, "/nonexistent/mrjob", "/nonexistent/adapters", d.exec)
+		if err != nil {
+			res.Error = "runtime: " + err.Error()
+			return
+		}
+		d.rt = rt2
+		ps2, err := rt2.ReattachToPipestance(d.psid, d.psdir, "", "", []string{mroPath}, "v",
+			map[string]string{}, true, false, ctx)
+		if err != nil {
+			res.Error = "reattach: " + err.Error()
+			return
+		}
+		d.ps = ps2
+		if err := ps2.Reset(); err == nil {
+			err = ps2.RestartLocalJobs("local")
+		}
+		if err != nil {
+			res.Error = "reset: " + err.Error()
+			return
+		}
+		ps2.LoadMetadata(ctx)
+		res.Stuck = false
+		d.loop(ctx)
+		res.States = append(res.States, res.State)
+	}
 	d.finish(ctx)
 	return
 }
@@ -476,7 +558,11 @@ func (d *Driver) loop(ctx context.Context) {
 	if penv == 0 {
 		penv = 0.5
 	}
-	scriptPos := 0
+	scriptPos := d.scriptPos
+	defer func() { d.scriptPos = scriptPos }()
+	for sc.Kind == "script" && scriptPos < len(sc.Script) && sc.Script[scriptPos] == "RESTART" {
+		scriptPos++
+	}
 	idle := 0 // consecutive iterations without any environment step or progress
 	for it := 0; it < maxIter; it++ {
 		d.res.Iter = it
@@ -487,7 +573,7 @@ func (d *Driver) loop(ctx context.Context) {
 			case "script":
 				for scriptPos < len(sc.Script) {
 					a := sc.Script[scriptPos]
-					if a == "R" || a == "S" {
+					if a == "R" || a == "S" || a == "RESTART" {
 						break
 					}
 					if i := d.findJob(a[2:], a[0] == 'E'); i >= 0 {
@@ -563,11 +649,11 @@ func (d *Driver) loop(ctx context.Context) {
 
 func (d *Driver) finish(ctx context.Context) {
 	res := d.res
-	d.tr.Emit("RunEnd", "state", res.State, "stuck", res.Stuck)
 	if res.State == string(core.Failed) {
 		fq, _, _, log, _, _ := d.ps.GetFatalError()
 		res.FatalFq, res.FatalLog = fq, log
 	}
+	d.tr.Emit("RunEnd", "state", res.State, "stuck", res.Stuck, "fatal", res.FatalFq)
 	// unknown jobs
 	for _, j := range d.jobs {
 		if j.inv == nil {
